@@ -75,7 +75,7 @@ Require Import Lia.
 Require Import Calc.Base Calc.Bytecode Calc.Value Calc.FloatText Calc.Ast Calc.Resolve Calc.Compile
         Calc.VM Calc.Sem Calc.Session Calc.CorrSession Calc.SemSession Calc.SemProofs
         Calc.ExprSem Calc.ExprVM Calc.ExprCorrect Calc.ExprTop Calc.ExprAssign Calc.ExprLen Calc.ExprSession
-        Calc.LExprSem Calc.StmtSem Calc.StmtRel Calc.StmtVM Calc.StmtCorrect Calc.StmtTop Calc.StmtCheck Calc.StmtDef Calc.StmtMixed.
+        Calc.LExprSem Calc.StmtSem Calc.StmtRel Calc.StmtVM Calc.StmtCorrect Calc.StmtTop Calc.StmtCheck Calc.StmtFuel Calc.StmtDef Calc.StmtMixed.
 Open Scope Z_scope.
 
 (* ---- the full statement (open) ---- *)
@@ -697,6 +697,19 @@ Proof.
   destruct C01_builtin_machine_is_at_top_level as [c [m Hr]].
   exact (mixed_session demo_items vm_bf mc_after_first c m Hr H).
 Qed.
+
+(* ---- the meaning does not depend on the fuel that finds it ---- *)
+(* the session theorems speak about "whatever fuel gives the statement a meaning": more fuel gives the same
+   meaning, so a statement has at most one *)
+Theorem C01_meaning_is_stable_in_fuel : forall B n t W r k,
+  wstmt t = true -> ssem B n W t = Some r -> ssem B (n + k) W t = Some r.
+Proof. exact ssem_more. Qed.
+Print Assumptions C01_meaning_is_stable_in_fuel.
+
+Theorem C01_meaning_is_unique : forall B n m t W r1 r2,
+  wstmt t = true -> ssem B n W t = Some r1 -> ssem B m W t = Some r2 -> r1 = r2.
+Proof. exact ssem_unique. Qed.
+Print Assumptions C01_meaning_is_unique.
 
 (* ---- sessions of definitions and statements: Sem (sem_tree) against the compiled code (run_tree) ---- *)
 (* the allocation counter never goes back (so closure ids stay fresh in Sem) *)
